@@ -63,6 +63,12 @@ def format_optsets(name, mod, sample):
                 pass
     if 'convert' in params:
         sets.append({'convert': True})
+    # the other documented options (representation, check digits), alone and in pairs
+    for o in C.option_combos(name, mod.format):
+        if 'separator' in o or 'convert' in o or 'region' in o:
+            continue
+        if o not in sets:
+            sets.append(o)
     return sets
 
 
@@ -98,9 +104,9 @@ def check_case(name, mod, x, fopts, cls, viols):
             {'format': f, 'validate_format': C.jsonable(o_vf)})
     else:
         try:
-            if fopts.get('add_check_digit'):
+            if fopts.get('add_check_digit') and name == 'imei':
                 # the option's documented purpose is to extend the number: compare on the original part
-                same = o_vf[1].startswith(v) and len(o_vf[1]) == len(v) + 1
+                same = o_vf[1] == v or (len(v) == 14 and o_vf[1].startswith(v) and len(o_vf[1]) == len(v) + 1)
             else:
                 same = normalise(name, o_vf[1]) == normalise(name, v)
         except Exception:  # noqa: B902
@@ -146,6 +152,21 @@ def work(shard, tier):
                             cells.add((name, len(v), cls, repr(sorted(fopts.items()))))
                             if len(samples) < 2 and rng.random() < 0.005:
                                 samples.append({'module': name, 'input': x, 'format': f, 'validate': v, 'options': fopts})
+        # modules whose format() can change the representation: every formatted spelling is formatted again under
+        # every option set (decimal-with-check-digit -> hex, 13-digit -> 10-digit ...)
+        rep_sets = [o for o in fsets if o and 'separator' not in o]
+        if rep_sets:
+            for v0 in nums:
+                for o1 in fsets:
+                    o_x2 = C.outcome(mod.format, v0, **o1)
+                    if o_x2[0] != 'ok' or not isinstance(o_x2[1], str) or o_x2[1] == v0:
+                        continue
+                    for o2 in fsets:
+                        e, f, v = check_case(name, mod, o_x2[1], o2, 'reformatted', viols)
+                        evals += e
+                        if v is not None:
+                            counters['accepted_cases'] += 1
+                            cells.add((name, len(v), 'reformatted', repr(sorted(o1.items())), repr(sorted(o2.items()))))
         # imei: add_check_digit on 14-digit numbers
         if name == 'imei':
             for v0 in nums:
